@@ -160,8 +160,12 @@ def render(doc: dict, fmt: dict | None = None) -> bytes:
     if fmt.get("lead_comment"):
         L.append(b"*---------------------- HEADER FIELD")
         L.append(b"")
+    sep = {"tab": b"\t", "two": b"  "}.get(fmt.get("header_sep"), b" ")  # command and value are separated by blanks
     for k, v in doc["headers"]:
-        L.append(b"#" + k + (b" " + v if v != b"" or fmt.get("space_after_empty") else b""))
+        if fmt.get("lower_commands"):
+            # command names are case-insensitive; the two-character id of #WAVxx / #BPMxx is kept as spelled
+            k = (k[:3].lower() + k[3:]) if (len(k) == 5 and k[:3].upper() in (b"WAV", b"BPM")) else k.lower()
+        L.append(b"#" + k + (sep + v if v != b"" or fmt.get("space_after_empty") else b""))
     L.append(b"")
     if fmt.get("lead_comment"):
         L.append(b"*---------------------- MAIN DATA FIELD")
